@@ -14,7 +14,7 @@ RULE = ('a case = 1-2 responder stacks with 1-3 CAs each, every CA in one of the
         'requester sends send_request(0, pgn, destination) for requested PGNs on the boundaries of the 18-bit space (0, EE00, EA00, EEFF, FFFF, 10000, '
         '1EE00, 1FFFF, 3FFFF, each PF boundary, data page 0/1 of the requested PGN) and random ones, to every held address, the global address and '
         'unowned addresses; the address-less CA requests the address-claim PGN from SA 254; a scripted node sends an ordinary request from SA 254; '
-        'oracle = request callbacks fired exactly at the operational CAs owning the destination (all for 255), once each, with (requester address, '
+        'oracle = request callbacks (1-2 subscribers per CA, plus one that was unsubscribed again) fired exactly at the operational CAs owning the destination (all for 255), once each per live subscriber, with (requester address, '
         'destination, requested PGN); a request for EE00 is answered by exactly those CAs with an address-claimed frame (PGN EE00 to 255, SA = held '
         'address, 8 NAME bytes), no callback; non-trivial = >= 1 callback and >= 1 claim answer expected; distinct = configuration')
 ASSUMPTIONS = ['send_request is called with data_page=0 (the Request PG exists on page 0 only); the data page of the *requested* PGN is exercised',
@@ -69,7 +69,14 @@ def run_case(case):
             pref = fresh(130, 240) if st == 'wait_veto' else fresh(2, 120)
             ca = W.ca(node, pref, name_value=nv, bypass=(st == 'bypass'))
             rec = dict(ca=ca, node=node, want=st, pref=pref, held=None, name=nv, calls=[], label='S%d.ca%d' % (si, ci))
-            ca.subscribe_request(lambda src, dst, pgn, rec=rec: rec['calls'].append((sim.now, src, dst, pgn)))
+            # one or two request subscribers; a third one is registered and removed again before any request arrives
+            rec['nsubs'] = rng.choice([1, 1, 2])
+            for k in range(rec['nsubs']):
+                ca.subscribe_request(lambda src, dst, pgn, rec=rec: rec['calls'].append((sim.now, src, dst, pgn)))
+            if rng.random() < 0.4:
+                gone = lambda src, dst, pgn, rec=rec: rec['calls'].append((sim.now, 'removed-subscriber', dst, pgn))
+                ca.subscribe_request(gone)
+                ca.unsubscribe_request(gone)
             cas.append(rec)
             if st == 'wait_veto':
                 sim.at(0.985, ca.start, 0.001)       # veto window 0.986 .. 1.236 covers the whole request phase (< 0.2 s)
@@ -143,11 +150,11 @@ def run_case(case):
                 if c['calls']:
                     viol.add('callback_for_claim_request', '%s request callback fired for the address-claim PGN' % c['label'], **tag)
         else:
-            obs['callbacks_expected'] += len(targets)
+            obs['callbacks_expected'] += sum(c['nsubs'] for c in targets)
             if answers:
                 viol.add('unexpected_answer', 'request for %05X to %d produced %s' % (pgn, d, answers[0].brief()), **tag)
             for c in cas:
-                exp = [(src, d, pgn)] if c in targets else []
+                exp = [(src, d, pgn)] * c['nsubs'] if c in targets else []
                 got = [(a, b, p) for (t, a, b, p) in c['calls']]
                 if got != exp:
                     viol.add('request_callbacks', '%s (state %s, holds %r): request %05X from %d to %d -> callbacks %s, expected %s'
